@@ -144,6 +144,28 @@ def o2(tier):
                    f'{mdl.eval(n, True)} rows: SQLite returns {mdl.eval(cnt_sql, True)} row(s) from index {mdl.eval(start_sql, True)}, the contract says {mdl.eval(cnt_ref, True)} from {mdl.eval(start_ref, True)} '
                    '(a negative OFFSET is treated as 0 by SQLite)', detail={'limit_param': lim_e, 'offset_param': off_e})
         r.samples.append({'function': fn, 'limit_param': lim_e, 'offset_param': off_e})
+        # the Rust-side limit guard: accepted(limit) <=> 1 <= limit <= MAX (the documented range, same as the memory backend)
+        g = re.search(r'if\s*!\s*\(\s*(\w+)\s*\.\.(=?)\s*(\w+)\s*\)\s*\.contains\(\s*&\s*limit\s*\)', body)
+        if not g:
+            raise S.SqlError(f'{fn}: limit guard not found / not understood')
+        consts = {}
+        for cf in ('groups/mod.rs', 'welcomes/mod.rs'):
+            for cm in re.finditer(r'pub const (\w+)\s*:\s*usize\s*=\s*([\d_]+)\s*;', open(os.path.join(S.REPO, 'crates', 'mdk-storage-traits', 'src', cf)).read()):
+                consts[cm.group(1)] = int(cm.group(2).replace('_', ''))
+        def cval(t):
+            if re.fullmatch(r'\d+', t):
+                return int(t)
+            if t not in consts:
+                raise S.SqlError(f'{fn}: constant {t} of the limit guard not found')
+            return consts[t]
+        lo, hi = cval(g.group(1)), cval(g.group(3))
+        maxdoc = consts['MAX_MESSAGE_LIMIT' if fn == 'messages' else 'MAX_PENDING_WELCOMES_LIMIT']
+        accepted = z3.And(z3.UGE(l, lo), z3.ULE(l, hi) if g.group(2) else z3.ULT(l, hi))
+        cases += 1
+        sat, mdl = sol.check([accepted != z3.And(z3.UGE(l, 1), z3.ULE(l, maxdoc))])
+        if sat:
+            r.fail(f'O2/{fn}/limit-range', f'SQLite {fn}(): the limit guard `{g.group(0)[3:].strip()}` does not accept exactly 1..={maxdoc}: e.g. limit={mdl.eval(l, True)} is '
+                   f'{"accepted" if z3.is_true(mdl.eval(accepted, True)) else "refused"} (the memory backend and the documented contract say otherwise)')
     r.cases = cases
     r.queries, r.solver_s = sol.queries, sol.time
     r.functions = ['mdk_sqlite_storage groups.rs::messages', 'mdk_sqlite_storage welcomes.rs::pending_welcomes']
@@ -160,13 +182,18 @@ def pred_z3(where, row, params):
         if c[0] == 'or':
             conj.append(z3.Or([pred_z3([a], row, params) for a in c[1]])); continue
         col, op, rhs = c
+        if col not in row:
+            # a column the contract does not speak about: arbitrary value (the predicate then cannot equal the contract unless it is redundant)
+            row[col] = (z3.BitVec(f'r_{col}', 64), z3.Bool(f'r_{col}_null'))
         v, isnull = row[col]
         if op == 'isnull':
             conj.append(isnull); continue
         if op == 'notnull':
             conj.append(z3.Not(isnull)); continue
-        if rhs == '?':
-            p = params.pop(0)
+        if rhs == '?' or re.fullmatch(r'\?\d+', rhs or ''):
+            p = params.pop(0) if params else None
+            if p is None or (z3.is_bv(p) and v is not None and z3.is_bv(v) and p.size() != v.size()):
+                p = z3.BitVec(f'param_{col}_{len(conj)}', v.size() if v is not None and z3.is_bv(v) else 64)   # a parameter the contract knows nothing about
         else:
             mm = re.match(r"^'(.*)'$", rhs)
             p = ('lit', mm.group(1)) if mm else None
@@ -283,6 +310,22 @@ def _sql_expr(txt, old, new):
         for an, av in reversed(vals[:-1]):
             n_, v_ = z3.And(an, n_), z3.If(an, v_, av)
         return n_, v_
+    m = re.fullmatch(r'(?i)(MAX|MIN)\s*\((.*)\)', t)
+    if m and len(S.split_top(m.group(2))) >= 2:
+        # scalar MAX / MIN: NULL if any argument is NULL, else the signed maximum / minimum
+        vals = [_sql_expr(a, old, new) for a in S.split_top(m.group(2))]
+        n_, v_ = vals[0]
+        for an, av in vals[1:]:
+            pick = (av > v_) if m.group(1).upper() == 'MAX' else (av < v_)
+            n_, v_ = z3.Or(n_, an), z3.If(pick, av, v_)
+        return n_, v_
+    m = re.fullmatch(r'(?i)(\w+)\s*\((.*)\)', t)
+    if m and m.group(1).upper() not in ('COALESCE', 'IFNULL'):
+        # a function the encoding does not know: uninterpreted (its result is not provably the new value)
+        args = [_sql_expr(a, old, new) for a in S.split_top(m.group(2))] if m.group(2).strip() else []
+        f = z3.Function('sqlfn_' + m.group(1).lower(), *([z3.BitVecSort(64)] * len(args) + [z3.BitVecSort(64)]))
+        fn_ = z3.Function('sqlfn_null_' + m.group(1).lower(), *([z3.BitVecSort(64)] * len(args) + [z3.BoolSort()]))
+        return (fn_(*[a[1] for a in args]) if args else z3.Bool('sqlfn_null_' + m.group(1).lower())), (f(*[a[1] for a in args]) if args else z3.BitVec('sqlfn_' + m.group(1).lower(), 64))
     m = re.fullmatch(r'(?i)excluded\s*\.\s*"?(\w+)"?', t)
     if m:
         if m.group(1) not in new:
@@ -292,7 +335,7 @@ def _sql_expr(txt, old, new):
         return z3.BoolVal(True), z3.BitVecVal(0, 64)
     if re.fullmatch(r'-?\d+', t):
         return z3.BoolVal(False), z3.BitVecVal(int(t), 64)
-    m = re.fullmatch(r'"?(\w+)"?', t)
+    m = re.fullmatch(r'(?:"?\w+"?\s*\.\s*)?"?(\w+)"?', t)
     if m:
         return old.setdefault(m.group(1), (z3.Bool(f'old_{m.group(1)}_null'), z3.BitVec(f'old_{m.group(1)}', 64)))
     raise S.SqlError(f'DO UPDATE SET expression not understood: {txt}')
@@ -463,8 +506,12 @@ def o9(tier):
     return memobs.save_group_refusal(tier, 'O9', 'O9')
 
 
+def o10(tier):
+    from props import memobs
+    return memobs.pending_welcomes_listing(tier, 'O10', 'O10')
+
 def run(tier, seed, only=None):
-    obs = [('O1', o1), ('O2', o2), ('O3', o3), ('O4', o4), ('O5', o5), ('O6', o6), ('O7', o7), ('O8', o8), ('O9', o9)]
+    obs = [('O1', o1), ('O2', o2), ('O3', o3), ('O4', o4), ('O5', o5), ('O6', o6), ('O7', o7), ('O8', o8), ('O9', o9), ('O10', o10)]
     out = []
     for k, f in obs:
         if only and k not in only:
